@@ -128,6 +128,8 @@ type Worker struct {
 	chanCnt     int
 	sched       *scheduler
 	onceDone    map[string]bool
+	inOnce      int
+	reportedOnce map[string]bool
 	notes       map[string]bool
 	randConcrete bool
 	lits        map[int]bool // term id → value asserted on this path
@@ -182,6 +184,8 @@ func (w *Worker) resetPath(prefix []Decision) {
 	w.chanCnt = 0
 	w.sched = nil
 	w.onceDone = nil
+	w.inOnce = 0
+	w.reportedOnce = map[string]bool{}
 	w.notes = map[string]bool{}
 	w.randConcrete = false
 	w.lits = map[int]bool{}
